@@ -6,7 +6,7 @@ Line-protocol driver for the bpf Assemble/Disassemble model (C48). Stateless.
   asm <instr>          -> ok <op> <jt> <jf> <k> | err
   dis <op> <jt> <jf> <k> -> ok <instr>
   rt1 <instr>          -> err | ok same | ok diff     (Disassemble(Assemble i) == i ?, answered from `canonTyped`)
-  rt2 <op> <jt> <jf> <k> -> ok raw | ok same | ok diff (Assemble(Disassemble r) == r ?, answered from `canonRaw`)
+  rt2 <op> <jt> <jf> <k> -> ok raw | ok same | ok diff (Disassemble r passed through? else Assemble(Disassemble r) == r ?)
   asmprog <prog>       -> ok <n> <op jt jf k>… | err
 -/
 open NetVerif.Driver NetVerif.Driver.BpfText NetVerif.Model.Bpf
@@ -32,7 +32,9 @@ def c48Step (_ : Unit) (line : String) : Unit × String :=
     | ["rt2", o, t, f, k] =>
       match parseRaw o t f k with
       | some r =>
-        if isRaw (disasm r) then "ok raw" else if canonRaw r then "ok same" else "ok diff"
+        -- answered from the decoder and `canonRaw` (the real code: pass-through iff not decoded or not canonical)
+        if isRaw (disasmCore r) || !canonRaw r then "ok raw"
+        else if asm (disasm r) == some r then "ok same" else "ok diff"
       | none => "bad-op"
     | ["asmprog", p] =>
       match parseProg p with
